@@ -763,6 +763,7 @@ func (sc *specCtx) sqn(b, k *Term, m *big.Int, unfold bool) *Term {
 		sc.st.typed[t.id] = true
 		// k = k' + 1  ==>  sqn(x,k) ≡ sqn(x,k')^2 (mod m)      [exponent law, M0]
 		prev := sc.sqn(b, Sub(k, ConstI(1)), m, false)
+		sc.st.assume(Imp(Eq(k, ConstI(0)), Eq(Mod(Sub(t, b), m), ConstI(0))))
 		inst := Eq(Mod(Sub(t, Mul(prev, prev)), m), ConstI(0))
 		if iv := sc.st.bounds.Interval(k); iv.lo != nil && iv.lo.Sign() > 0 {
 			sc.st.assume(inst)
